@@ -367,6 +367,15 @@ def check_C18(tier, seed):
     # (v') one long history in one process: 300 calls alternating over the shaders, then every shader once more
     longL = [dict(L[(7 * q) % len(L)], repeat=0) for q in range(300 if quick else 3000)] + [dict(c, repeat=0) for c in L]
     evF = run_vdriver_raw("gen", longL, "C18_F", extra=["--no-project", "--no-s"])
+    # (v'') the formatter comes and goes during the life of one process: a call that finds a working formatter (however slow) returns what
+    #       every such call returns, whatever earlier calls ran into (formatter missing, failing, killed)
+    fmt_env()
+    os.environ["VERIF_FMT_SLOW_S"] = "6.5" if quick else "21"
+    G = []
+    for i, c in enumerate([c for c in L if c["id"].startswith("h-0")][:2]):
+        for j, plan in enumerate(["ok", "absent", "ok", "fail_no_read", "ok", "kill_after_read", "very_slow", "ok", "absent"]):
+            G.append(dict(c, id="h-fmt-%d-%d" % (i, j), opts=dict(c["opts"], rustfmt=True), fmt_plan=plan, repeat=0))
+    evG = run_vdriver_raw("gen", G, "C18_G", extra=["--no-project", "--no-s"])
     # (vi) system calls of the calling process: nothing is spawned or opened for writing, except one formatter per call when asked
     sys_events = []
     for fmt in (False, True):
@@ -375,7 +384,7 @@ def check_C18(tier, seed):
     by_src = {}
     order = []
     total = 0
-    for tag, evs in (("A", evA), ("B", evB), ("C", evC), ("D", evD), ("E", evE), ("F", evF)):
+    for tag, evs in (("A", evA), ("B", evB), ("C", evC), ("D", evD), ("E", evE), ("F", evF), ("G", evG)):
         if tag == "D":
             sched_events = [e for e in evs if e["ev"] == "sched"]
         for c, o in pairs_of(evs):
